@@ -93,5 +93,61 @@ def base_corpus():
     return C
 
 
-def corpus(tier):
-    return [c for c in base_corpus() if tier in c.tiers]
+def opt_corpus():
+    """shapes targeted by the optional AST passes (C04) and the magic-set transformation (C05)"""
+    C = []
+    a = C.append
+    a(P("alias_chain", E2 + ".decl a1(x:number,y:number)\n.decl a2(x:number,y:number)\n.decl p(x:number,y:number)\n.output p\na1(x,y) :- e(x,y).\na2(x,y) :- a1(x,y).\np(x,y) :- a2(x,y), a1(y,x).\n", "opt"))
+    a(P("empty_relation", E2 + ".decl emp(x:number)\n.decl p(x:number)\n.decl q(x:number)\n.output p\n.output q\np(x) :- e(x,_), !emp(x).\nq(x) :- e(x,_), emp(x).\n", "opt"))
+    a(P("empty_in_aggregate", E2 + ".decl emp(x:number)\n.decl c(n:number)\n.output c\nc(n) :- n = count : { emp(_) }.\nc(n) :- n = sum x : { emp(x) }.\n", "opt"))
+    a(P("redundant_relation", E2 + ".decl dead(x:number)\n.decl p(x:number)\n.output p\ndead(x) :- e(x,_).\ndead(y) :- dead(x), e(x,y).\np(x) :- e(_,x).\n", "opt"))
+    a(P("existential", E2 + V1 + ".decl r(x:number,y:number)\n.decl p(x:number)\n.output p\nr(x,y) :- e(x,y).\nr(x,z) :- r(x,y), e(y,z).\np(x) :- v(x), r(x,_).\n", "opt"))
+    a(P("existential_nullary", E2 + ".decl r(x:number,y:number)\n.decl p(x:number)\n.output p\nr(x,y) :- e(x,y), x != y.\np(x) :- e(x,x), r(_,_).\n", "opt"))
+    a(P("singleton_vars", E2 + F2 + ".decl p(x:number)\n.output p\np(x) :- e(x,y), f(z,w).\n", "opt"))
+    a(P("partition_body", E2 + F2 + V1 + ".decl p(x:number)\n.output p\np(x) :- v(x), e(a,b), f(b,c), a != c.\n", "opt"))
+    a(P("partition_recursive", E2 + F2 + V1 + ".decl p(x:number)\n.output p\np(x) :- v(x).\np(y) :- p(x), e(x,y), f(a,a).\n", "opt"))
+    a(P("const_constraints", E2 + ".decl p(x:number)\n.decl q(x:number)\n.output p\n.output q\np(x) :- e(x,_), 1 < 2, 3 != 4.\nq(x) :- e(x,_), 2 < 1.\nq(x) :- e(_,x), 5 = 5.\n", "opt"))
+    a(P("redundant_sum", E2 + V1 + ".decl c(x:number,n:number)\n.output c\nc(x,n) :- v(x), n = sum 3 : { e(x,_) }.\n", "opt"))
+    a(P("duplicate_clauses", E2 + ".decl p(x:number,y:number)\n.output p\np(x,y) :- e(x,y), e(y,x).\np(a,b) :- e(b,a), e(a,b).\np(x,y) :- e(x,y), e(x,y), e(y,x).\n", "opt"))
+    a(P("equivalent_relations", E2 + ".decl p(x:number,y:number)\n.decl q(x:number,y:number)\n.decl o(x:number)\n.output o\np(x,y) :- e(x,y).\np(x,z) :- p(x,y), e(y,z).\nq(a,b) :- e(a,b).\nq(a,c) :- q(a,b), e(b,c).\no(x) :- p(x,x), q(x,x).\n", "opt"))
+    a(P("inline_candidate", E2 + V1 + ".decl h(x:number,y:number)\n.decl p(x:number)\n.output p\nh(x,y) :- e(x,y), x < y.\nh(x,y) :- e(y,x), v(x).\np(x) :- v(x), h(x,_).\np(x) :- v(x), !h(x,x).\n", "opt"))
+    a(P("inline_in_aggregate", E2 + V1 + ".decl h(x:number,y:number)\n.decl c(x:number,n:number)\n.output c\nh(x,y) :- e(x,y), x != y.\nc(x,n) :- v(x), n = count : { h(x,_) }.\n", "opt"))
+    a(P("magic_bound_arg", E2 + ".decl p(x:number,y:number)\n.decl o(y:number)\n.output o\np(x,y) :- e(x,y).\np(x,z) :- p(x,y), e(y,z).\no(y) :- p(7,y).\n", "magic"))
+    a(P("magic_negation", E2 + V1 + ".decl p(x:number,y:number)\n.decl o(y:number)\n.output o\np(x,y) :- e(x,y).\np(x,z) :- p(x,y), e(y,z).\no(y) :- v(y), !p(7,y).\n", "magic"))
+    a(P("magic_aggregate", E2 + V1 + ".decl p(x:number,y:number)\n.decl o(x:number,n:number)\n.output o\np(x,y) :- e(x,y).\np(x,z) :- p(x,y), e(y,z).\no(x,n) :- v(x), n = count : { p(x,_) }.\n", "magic"))
+    a(P("magic_two_outputs", E2 + V1 + ".decl p(x:number,y:number)\n.decl o1(y:number)\n.decl o2(x:number)\n.output o1\n.output o2\np(x,y) :- e(x,y).\np(x,z) :- e(x,y), p(y,z).\no1(y) :- v(x), p(x,y).\no2(x) :- v(y), p(x,y).\n", "magic"))
+    a(P("magic_eqrel", E2 + V1 + ".decl q(x:number,y:number) eqrel\n.decl o(y:number)\n.output o\nq(x,y) :- e(x,y).\no(y) :- v(x), q(x,y).\n", "magic"))
+    a(P("magic_functor_L", E2 + ".decl p(x:number,y:number)\n.decl o(y:number)\n.output o\np(x,y) :- e(x,y).\no(y+1) :- p(3,y).\n", "magic", mode="L", n=2))
+    return C
+
+
+def index_corpus():
+    """inequality / multi-bound index shapes over signed / unsigned / float columns (C06, L-mode)"""
+    C = []
+    a = C.append
+    U2 = ".decl e(x:unsigned,y:unsigned)\n.input e\n"
+    UV = ".decl v(x:unsigned)\n.input v\n"
+    a(P("idx_strict_both", E2 + V1 + ".decl p(x:number,z:number)\n.output p\np(x,z) :- e(x,y), v(z), x < z, z < y.\n", "index", mode="L", n=2))
+    a(P("idx_eq_and_range", E2 + F2 + ".decl p(x:number,w:number)\n.output p\np(x,w) :- e(x,y), f(x,w), w >= y, w != 2147483647.\n", "index", mode="L", n=2))
+    a(P("idx_two_lower", E2 + V1 + ".decl p(z:number)\n.output p\np(z) :- e(x,y), v(z), z > x, z > y.\n", "index", mode="L", n=2))
+    a(P("idx_unsigned_strict", U2 + UV + ".decl p(z:unsigned)\n.output p\np(z) :- e(x,y), v(z), x < z, z < y.\n", "index", mode="L", n=2))
+    a(P("idx_unsigned_const", U2 + ".decl p(x:unsigned)\n.output p\np(x) :- e(x,y), y > 0, y < 4294967295, x >= 1.\n", "index", mode="L", n=2))
+    a(P("idx_signed_const_extremes", E2 + ".decl p(x:number)\n.output p\np(x) :- e(x,y), y > -2147483648, x < 2147483647, x != y.\n", "index", mode="L", n=2))
+    a(P("idx_neg_const", E2 + V1 + ".decl p(x:number)\n.output p\np(x) :- v(x), e(x,-1).\np(x) :- v(x), e(-2147483648,x).\n", "index", mode="L", n=2))
+    a(P("idx_float_range", ".decl e(x:float,y:float)\n.input e\n.decl v(x:float)\n.input v\n.decl p(z:float)\n.output p\np(z) :- e(x,y), v(z), x <= z, z <= y.\n", "index", mode="L", n=2, tiers=("thorough",)))
+    a(P("idx_agg_range", E2 + V1 + ".decl c(x:number,n:number)\n.output c\nc(x,n) :- v(x), n = count : { e(a,b), a > x, b <= x }.\n", "index", mode="L", n=2))
+    return C
+
+
+def corpus(tier, extra=()):
+    cs = [c for c in base_corpus() if tier in c.tiers]
+    fams = {"opt": opt_corpus, "magic": opt_corpus, "index": index_corpus}
+    done = set()
+    for e in extra:
+        f = fams.get(e)
+        if f is None or f in done:
+            continue
+        done.add(f)
+        allowed = set(extra)
+        cs += [c for c in f() if tier in c.tiers and (c.family in allowed)]
+    return cs
